@@ -7,4 +7,5 @@ export PYTHONDONTWRITEBYTECODE=1 PYTHONWARNINGS=ignore
 PY=$(command -v python3-vt || echo /opt/veriftools/pyvenv/bin/python)
 "$PY" -c "import crosshair, z3; print('crosshair', crosshair.__version__, 'z3', z3.get_version_string())"
 /venv/bin/python -c "import sys; sys.path.insert(0, '/repo'); import praatio; print('praatio from', praatio.__file__)"
+/venv/bin/python oracle/validate_spec.py
 "$PY" engine/selftest.py
